@@ -122,8 +122,12 @@ def run(cfg):
         for f in fs:
             if f.node.get('kind') == 'CXXConstructorDecl':
                 continue    # member initialisers establish the initial (invalid) value
+            targets = {'this.mEpochSeconds'}
+            for s in walk_stmts(f.body):       # `acetime_t& seconds = mEpochSeconds;`: a second name for the member
+                if s.k == 'decl' and s.a[2] is not None and (s.a[1] or '').rstrip().endswith('&') and path_of(s.a[2]) == 'this.mEpochSeconds':
+                    targets.add(s.a[0])
             for s in walk_stmts(f.body):
-                if s.k == 'assign' and path_of(s.a[0]) == 'this.mEpochSeconds':
+                if s.k == 'assign' and path_of(s.a[0]) in targets:
                     n += 1
                     inc = _increment(s)
                     if not (inc is not None and inc > 0):
